@@ -116,6 +116,9 @@ def run_shard(sh, rec):
             rec.case(None)
             continue
         dx = float(sim.dx)
+        # ONE free-stream container per simulator object, updated IN PLACE between the steps (how a caller ramps a free stream);
+        # alternately a numpy array and a python list
+        fs_box = np.zeros(d) if c["cid"] % 2 == 0 else [0.0] * d
         for skind in ("noise", "mixed", "scaled", "ties"):
             dt = float(10 ** rng.uniform(-5, -1))
             # dt as the caller might pass it: python float, numpy double, or the working precision
@@ -145,7 +148,10 @@ def run_shard(sh, rec):
             sim.time = t0
             kw = {}
             if kind != "passive":
-                kw["free_stream_velocity"] = fs.copy()
+                for i_ in range(d):
+                    fs_box[i_] = float(fs[i_])
+                kw["free_stream_velocity"] = fs_box
+                rec.count("steps_with_free_stream_container_updated_in_place")
             try:
                 sim.time_step(dt=dt, **kw)
             except Exception as e:
@@ -164,7 +170,7 @@ def run_shard(sh, rec):
                 rec.count("forcing_zero_checks")
                 if np.ascontiguousarray(sim.eul_grid_forcing_field).view(np.uint8).any():
                     rec.violation("forcing-not-zero-on-return", f"forcing field has non-zero bytes after the step cfg={label}", {"cfg": cfg})
-            if kind != "passive" and not np.array_equal(kw["free_stream_velocity"], fs):
+            if kind != "passive" and not np.array_equal(np.asarray(kw["free_stream_velocity"], np.float64), fs):
                 rec.violation("free-stream-argument-modified", f"cfg={label}", {"cfg": cfg})
 
             # reference
